@@ -440,8 +440,99 @@ def share_failing_body(ctx, rule, floor=2):
     ctx.floor(rule, floor)
 
 
+def discarded_results(f):
+    """call sites of the crate whose `Result` is never looked at: the destination local is unused, or only handed to `.ok()` /
+    `.is_ok()` / `.is_err()` / `drop` whose own result is unused. Tracing-macro expansions are skipped."""
+    def used(b, l, skip_bi):
+        hits = []
+
+        def walk(x, where):
+            if isinstance(x, dict):
+                if x.get("l") == l and "p" in x:
+                    hits.append(where)
+                for v in x.values():
+                    walk(v, where)
+            elif isinstance(x, list):
+                for v in x:
+                    walk(v, where)
+        for i, blk in enumerate(b.blocks):
+            for st in blk["s"]:
+                if st["k"] in ("storage_live", "storage_dead"):
+                    continue
+                walk(st, ("s", i))
+            t = blk["t"]
+            if t["k"] == "drop":
+                continue
+            if i == skip_bi:
+                walk(t.get("a"), ("t", i))
+            else:
+                walk(t, ("t", i))
+        return hits
+    out = []
+    for p, b in f.bodies.items():
+        if b.rec.get("derived") or b.kind == "const":
+            continue
+        for bi, t in b.calls():
+            if mir.is_noise(t.get("x")):
+                continue
+            d = t.get("d")
+            if not d or d["p"] or d["l"] == 0:
+                continue
+            if not b.locals[d["l"]]["ty"].startswith("std::result::Result<"):
+                continue
+            hits = used(b, d["l"], bi)
+            if not hits:
+                out.append((b, bi, t, "never looked at"))
+                continue
+            # every use is the receiver of a discarding adaptor whose result is unused itself
+            ok_all = True
+            for kind, i in hits:
+                tt = b.blocks[i]["t"]
+                if kind != "t" or tt["k"] != "call" or tt["f"].get("name") not in ("ok", "is_ok", "is_err", "drop", "err", "unwrap_or_default"):
+                    ok_all = False
+                    break
+                dd = tt.get("d")
+                if not dd or dd["p"] or dd["l"] == 0 or used(b, dd["l"], i):
+                    ok_all = False
+                    break
+            if ok_all:
+                out.append((b, bi, t, "only discarded through `%s`" % b.blocks[hits[0][1]]["t"]["f"].get("name")))
+    return out
+
+
+STORE_LAYER = r"^(store::fs::|<store::fs::|redb::|<.* as redb::|<redb::)"
+
+
+def r5(ctx):
+    """error discipline: no result of the storage layer (the store's own functions, redb tables, transactions) is discarded
+    anywhere in the crate - an acknowledged operation whose write, commit or flush failed silently is not durable. One site is
+    tolerated, by name and with its reason (it doubles as the positive example that keeps the rule from passing vacuously)"""
+    f = ctx.facts
+    tolerated = {("store::fs::Store::remove_replica", "records_by_key"): "a failed clean-up of the key-ordered index leaves only stale ids, which every reader skips (C05.R6)"}
+    types = tables.table_types(f)
+    n = seen_tolerated = 0
+    for b, bi, t, how in discarded_results(f):
+        paths = mir.callee_paths(t)
+        if not any(re.search(STORE_LAYER, p or "") for p in list(paths) + [t["f"].get("full") or ""]):
+            continue
+        n += 1
+        root = b.rec.get("root") or b.path
+        ct = tables.call_table(t, types)
+        tol = tolerated.get((root, ct[0] if ct else None))
+        if tol:
+            seen_tolerated += 1
+            ctx.ok("C06.R5", root, "discarded-storage-result[tolerated:%s]" % ct[0], "%s is %s - tolerated: %s" % (t["f"].get("name"), how, tol), t["sp"])
+        else:
+            ctx.bad("C06.R5", root, "discarded-storage-result[%s]" % t["f"].get("name"), "the result of %s is %s: a storage failure here is silently lost" % ((t["f"].get("full") or t["f"].get("name"))[:120], how), t["sp"])
+    if seen_tolerated != 1:
+        raise mir.AnchorMissing("the one tolerated discarded storage result (remove_replica's index clean-up) was found %d times: the detector no longer sees what it is meant to see" % seen_tolerated)
+    ctx.ok("C06.R5", "crate", "storage-results-looked-at", "%d discarded storage-layer results in the crate (1 tolerated by name)" % n, None)
+    ctx.floor("C06.R5", 2)
+
+
 def run(ctx):
     ctx.run_rule("C06.R4", r4)
     ctx.run_rule("C06.R1", r1)
     ctx.run_rule("C06.R2", r2)
     ctx.run_rule("C06.R3", r3)
+    ctx.run_rule("C06.R5", r5)
